@@ -124,7 +124,7 @@ def run(ctx, model=None):
     from props.c10 import example_games
     for g in example_games():
         check_case(ctx, g, model)
-    N = 300 if ctx.quick() else 8000
+    N = 300 if ctx.quick() else 30000
     for k in range(N):
         r = k % 6
         g = gen.multi_final_game(rng) if k % 11 == 0 else gen.stopping_game(rng, extra_finals=0.25) if r == 0 else gen.layered_tie_game(rng) if r == 1 else \
